@@ -212,6 +212,11 @@ def scalar_and_sim_cases(ctx, rng, scale, failures, dist):
                     x = torch.zeros(2, 3, dim)                      # structured inputs: the residual vanishes (or sits on the grid) early
                 elif kind != 'rsimvq' and ci % 4 == 3:
                     x = torch.randint(-2, 3, (2, 3, dim)).float() * 0.5
+                if ci % 3 == 1:
+                    # the same values as a dense PERMUTED VIEW (conv features '(b, d, n)' viewed channel-last, a time-major batch viewed batch-first): a
+                    # running sum kept through reshape() / view handles ends up in a copy for such strides
+                    x = x.permute(2, 0, 1).contiguous().permute(1, 2, 0) if ci % 2 == 1 else x.transpose(0, 1).contiguous().transpose(0, 1)
+                    dist['permuted_view_inputs'] = dist.get('permuted_view_inputs', 0) + 1
                 with torch.no_grad():
                     ret = q(x, return_all_codes=True)
                     out, idx, all_codes = ret[0], ret[1], ret[-1]
